@@ -1,7 +1,6 @@
 # File / process-global seam: tracked open() injected into the tree's modules, replaced
 # sys.std*, HOME pointing at an empty directory, a private scratch directory per worker.
 
-import atexit
 import io
 import os
 import shutil
@@ -12,32 +11,44 @@ import builtins
 from . import core
 from .streams import StdShape, SimRawSink
 
-_scratch = None
+_root = None      # scratch root of this batch (created by the batch's parent process, removed by it)
+_scratch = None   # private directory of this worker process; forked helper children inherit and reuse it
+
+
+def _base():
+    return '/dev/shm' if os.path.isdir('/dev/shm') and os.access('/dev/shm', os.W_OK) else None
+
+
+def ensure_root():
+    global _root
+    if _root is None:
+        _root = (os.getpid(), tempfile.mkdtemp(prefix='rbqlsim-', dir=_base()))
+    return _root[1]
+
+
+def cleanup_root():
+    """Called by the process that created the root (bin/check, selftests) before it exits."""
+    global _root, _scratch
+    if _root is not None and _root[0] == os.getpid():
+        shutil.rmtree(_root[1], ignore_errors=True)
+        _root = None
+        _scratch = None
+
+
+def new_process_scratch():
+    """Called at the start of every pool worker: a fresh private directory under the batch root."""
+    global _scratch
+    d = tempfile.mkdtemp(prefix='p%d-' % os.getpid(), dir=ensure_root())
+    os.mkdir(os.path.join(d, 'home'))
+    os.mkdir(os.path.join(d, 'w'))
+    _scratch = d
+    return d
 
 
 def scratch_dir():
-    """Private directory of this worker process (removed at exit)."""
-    global _scratch
-    if _scratch is None or _scratch[0] != os.getpid():
-        base = '/dev/shm' if os.path.isdir('/dev/shm') and os.access('/dev/shm', os.W_OK) else None
-        d = tempfile.mkdtemp(prefix='rbqlsim-', dir=base)
-        os.mkdir(os.path.join(d, 'home'))
-        os.mkdir(os.path.join(d, 'w'))
-        _scratch = (os.getpid(), d)
-        atexit.register(_cleanup, os.getpid(), d)
-    return _scratch[1]
-
-
-def _cleanup(pid, d):
-    if os.getpid() == pid:
-        shutil.rmtree(d, ignore_errors=True)
-
-
-def cleanup_now():
-    global _scratch
-    if _scratch is not None and _scratch[0] == os.getpid():
-        shutil.rmtree(_scratch[1], ignore_errors=True)
-        _scratch = None
+    if _scratch is None:
+        return new_process_scratch()
+    return _scratch
 
 
 def work_dir():
